@@ -59,5 +59,8 @@ pub fn panic_message(e: &Box<dyn std::any::Any + Send>) -> String {
 
 /// Silences the default panic hook output (the harness catches panics and reports them itself).
 pub fn quiet_panics() {
+    if std::env::var("VERIF_PANIC_VERBOSE").is_ok() {
+        return;
+    }
     std::panic::set_hook(Box::new(|_| {}));
 }
